@@ -3,7 +3,6 @@ import json, os
 V = os.path.dirname(os.path.dirname(os.path.abspath(__file__)))
 reg = json.load(open(os.path.join(V, 'contracts', 'units.json')))
 NA = {
- 'C16': 'relational claim between two 1500-line string-matching parsers and a Lua translator across the mlua FFI; needs a third full grammar as spec; Verus has no str byte reasoning, Kani string tables exhaust memory.',
  'C20': 'hyperproperty over two whole-process runs (per-process RandomState seeds, allocator, wall clock); a function contract cannot mention the hash seed and Verus/Kani model HashMap iteration as nondeterministic/fixed respectively.',
 }
 checks = []
